@@ -140,6 +140,17 @@ def propagate_model(ctx):
                     continue                  # the real run IS one of the verified model behaviours
                 drift += 1
             judge.append({"id": o["id"], "g": c["g"], "ev": c["ev"], "current": o["current"], "status": o["status"]})
+    # self-test of the binding: a recorded run with one propagated value flipped must be rejected by the Layer-A judge
+    probe = next((c for c in judge if c["status"] == "done" and len(c["ev"]) == 1 and abs(c["ev"][0]) <= 3
+                  and c["g"][abs(c["ev"][0]) - 1]["t"] == "atom"), None)
+    if probe is not None:
+        bad = json.loads(json.dumps(probe))
+        bad["id"] = 0
+        k = abs(bad["ev"][0]) - 1
+        bad["current"][k] = 0 if bad["current"][k] == FK else FK
+        if tlc.judge_batch("JudgePropagate", [bad], nproc=1, tag="c06st")[0]["ok"]:
+            raise MachineryError("self-test: JudgePropagate accepted a corrupted run")
+        cov["selftest_corrupted_run_rejected"] = True
     J = tlc.judge_batch("JudgePropagate", judge, nproc=ctx.nproc, tag="c06p")
     for c in judge:
         if not J[c["id"]]["ok"]:
